@@ -11,8 +11,10 @@
 package vrt
 
 import (
+	"cmp"
 	"fmt"
 	"runtime/debug"
+	"slices"
 	"strings"
 )
 
@@ -600,4 +602,15 @@ func Send[E any](ch chan<- E, v E) {
 			Yield()
 		}
 	}
+}
+
+// SortedKeys returns the keys of m in ascending order (the instrumenter routes ranges over maps with ordered keys
+// through it: Go leaves the iteration order to the runtime, the explorer needs one it can reproduce).
+func SortedKeys[M ~map[K]V, K cmp.Ordered, V any](m M) []K {
+	ks := make([]K, 0, len(m))
+	for k := range m {
+		ks = append(ks, k)
+	}
+	slices.Sort(ks)
+	return ks
 }
